@@ -30,6 +30,17 @@ package pathdb
 // linked along the ancestors of the disk root; reads agree; rollback to the
 // nearest / oldest recoverable root works and reads as the model; the history can
 // be continued and committed.
+//
+// Owned schedule (seeded C20-A): with asynchronous flushing (the production
+// default) the key-value store handed to pathdb is additionally wrapped by c20Gate.
+// While armed, the background flush's batch.Write is parked (bounded) BEFORE it
+// touches the store or the log; the harness then drives one more Update (the commit
+// of the next layer: history write, tail truncation) and lets the write through.
+// The effects of that Update are logged in front of the flush batch, so the crash
+// points "next layer committed while the previous flush had not landed" are in the
+// log like any other and are always evaluated. No source hook; a bound that expires
+// only loses the window. TestVerifC20FlushWindow is the profile that concentrates on
+// it (always async, finite history limits, write buffers that aggregate several layers).
 
 import (
 	"bytes"
@@ -41,6 +52,7 @@ import (
 	"runtime/debug"
 	"sort"
 	"strings"
+	"sync"
 	"testing"
 	"time"
 
@@ -69,6 +81,136 @@ type c20Disk struct {
 }
 
 func (d *c20Disk) AncientDatadir() (string, error) { return d.dir, nil }
+
+// c20Gate wraps the recording key-value store handed to pathdb.
+//
+//   - Every write (put, delete, batch, sync) is applied to the store AND appended to
+//     the event log under the write lock, reads take the read lock: nobody can observe
+//     a write that is not yet in the log, so the log order is causal even while the
+//     flush goroutine runs next to the committing goroutine (a tail truncation that was
+//     decided on a persistent state id is logged after the batch that wrote that id).
+//   - While armed, a batch.Write parks before doing anything until release, or 3 s
+//     (never a deadlock, whatever the tree does). It models a slow disk during the
+//     background buffer flush.
+type c20Gate struct {
+	ethdb.KeyValueStore
+	rw sync.RWMutex
+
+	mu     sync.Mutex
+	armed  bool
+	open   chan struct{} // closed on release
+	parked chan struct{} // closed when a batch write parked on the current gate
+	isPark bool
+	held   int
+	by     map[string]int
+}
+
+func newC20Gate(kv ethdb.KeyValueStore) *c20Gate {
+	return &c20Gate{KeyValueStore: kv, by: map[string]int{}}
+}
+
+func (g *c20Gate) arm() {
+	g.mu.Lock()
+	defer g.mu.Unlock()
+	g.armed, g.open, g.parked, g.isPark = true, make(chan struct{}), make(chan struct{}), false
+}
+
+func (g *c20Gate) release(by string) {
+	g.mu.Lock()
+	defer g.mu.Unlock()
+	if g.armed {
+		g.armed = false
+		if g.isPark {
+			g.by[by]++
+		}
+		close(g.open)
+	}
+}
+
+func (g *c20Gate) parkedCh() chan struct{} {
+	g.mu.Lock()
+	defer g.mu.Unlock()
+	return g.parked
+}
+
+func (g *c20Gate) Has(key []byte) (bool, error) {
+	g.rw.RLock()
+	defer g.rw.RUnlock()
+	return g.KeyValueStore.Has(key)
+}
+
+func (g *c20Gate) Get(key []byte) ([]byte, error) {
+	g.rw.RLock()
+	defer g.rw.RUnlock()
+	return g.KeyValueStore.Get(key)
+}
+
+func (g *c20Gate) NewIterator(prefix, start []byte) ethdb.Iterator {
+	g.rw.RLock()
+	defer g.rw.RUnlock()
+	return g.KeyValueStore.NewIterator(prefix, start)
+}
+
+func (g *c20Gate) Put(key, value []byte) error {
+	g.rw.Lock()
+	defer g.rw.Unlock()
+	return g.KeyValueStore.Put(key, value)
+}
+
+func (g *c20Gate) Delete(key []byte) error {
+	g.rw.Lock()
+	defer g.rw.Unlock()
+	return g.KeyValueStore.Delete(key)
+}
+
+func (g *c20Gate) DeleteRange(start, end []byte) error {
+	g.rw.Lock()
+	defer g.rw.Unlock()
+	return g.KeyValueStore.DeleteRange(start, end)
+}
+
+func (g *c20Gate) SyncKeyValue() error {
+	g.rw.Lock()
+	defer g.rw.Unlock()
+	return g.KeyValueStore.SyncKeyValue()
+}
+
+func (g *c20Gate) NewBatch() ethdb.Batch {
+	return &c20GateBatch{Batch: g.KeyValueStore.NewBatch(), g: g}
+}
+
+func (g *c20Gate) NewBatchWithSize(size int) ethdb.Batch {
+	return &c20GateBatch{Batch: g.KeyValueStore.NewBatchWithSize(size), g: g}
+}
+
+type c20GateBatch struct {
+	ethdb.Batch
+	g *c20Gate
+}
+
+func (b *c20GateBatch) Write() error {
+	g := b.g
+	g.mu.Lock()
+	ch, armed := g.open, g.armed
+	if armed {
+		g.held++
+		if !g.isPark {
+			g.isPark = true
+			close(g.parked)
+		}
+	}
+	g.mu.Unlock()
+	if armed {
+		select {
+		case <-ch:
+		case <-time.After(3 * time.Second):
+			g.release("bound")
+		}
+	}
+	g.rw.Lock()
+	defer g.rw.Unlock()
+	return b.Batch.Write()
+}
 
 // log.Crit would os.Exit(1); turn it into a panic that names the message.
 type c20CritHandler struct{}
@@ -164,6 +306,7 @@ type c20Run struct {
 	dir       string
 	log       *crashkv.Log
 	kv        *crashkv.Store
+	gate      *c20Gate
 	rec       *recfreezer.Recorder
 	db        *Database
 	rootID    map[common.Hash]int
@@ -174,6 +317,12 @@ type c20Run struct {
 	trace     []string
 	nOps      map[string]int
 	st        *vs.S
+
+	// owned flush windows (async flush only)
+	armEvery   int      // an Update is armed when a drawn number in [0,armEvery) is 0; 0 = never
+	maxWindows int      // windows per history
+	windows    [][2]int // log index range (lo, hi]: events logged while the flush's batch write was parked
+	winStats   map[string]int
 }
 
 func (r *c20Run) config() string {
@@ -207,7 +356,7 @@ func (r *c20Run) open() {
 	b := r.log.Mark("open:begin")
 	cfg := r.cfg
 	if msg := c20Guard(func() error {
-		r.db = New(&c20Disk{Database: rawdb.NewDatabase(r.kv), dir: r.dir}, &cfg, false)
+		r.db = New(&c20Disk{Database: rawdb.NewDatabase(r.gate), dir: r.dir}, &cfg, false)
 		return nil
 	}); msg != "" {
 		r.fail("opening the live database failed: %s", msg)
@@ -235,19 +384,128 @@ func (r *c20Run) span(kind string, fn func()) {
 	r.nOps[kind]++
 }
 
-func (r *c20Run) opUpdate() {
+// drawTransition draws the next transition on top of the head and registers it in the model.
+func (r *c20Run) drawTransition() (*pdbTransition, int, []pdbOp) {
 	rt := r.rt
 	ops := pdbDrawOps(rt, r.w.State(r.head), rapid.IntRange(1, 4).Draw(rt, "nops"))
 	tr := r.w.Transition(r.head, ops, r.w.NextSeq(), rapid.Bool().Draw(rt, "rawKeys"))
 	id := r.rootID[r.head] + 1
 	r.rootID[tr.Root], r.parent[tr.Root] = id, r.head
+	r.head = tr.Root
+	return tr, id, ops
+}
+
+func (r *c20Run) opUpdate() {
+	if !r.cfg.NoAsyncFlush && r.armEvery > 0 && len(r.windows) < r.maxWindows &&
+		rapid.IntRange(0, r.armEvery-1).Draw(r.rt, "armFlushWindow") == 0 {
+		r.opUpdateWindow()
+		return
+	}
+	tr, id, ops := r.drawTransition()
 	r.span("update", func() {
 		if msg := c20Guard(func() error { return r.db.Update(tr.Root, tr.Parent, uint64(id), tr.Nodes, tr.States) }); msg != "" {
 			r.fail("Update #%d (%x<-%x): %s", id, tr.Root, tr.Parent, msg)
 		}
 	})
-	r.head = tr.Root
 	r.trace = append(r.trace, fmt.Sprintf("[%d] update #%d %x %v raw=%v -> disk id %d", r.log.Len(), id, tr.Root[:4], ops, tr.Raw, r.db.tree.bottom().stateID()))
+}
+
+// opUpdateWindow is an Update with the gate armed. If that Update schedules a
+// background flush, the flush's batch write parks in the gate; one more Update (the
+// commit of the next layer) is then driven on a second goroutine until it returned
+// or came to rest (it may legitimately wait for the flush in flight), the events it
+// produced are remembered as a flush window and the write is let through. All
+// waits are bounded; an expired bound only means that the window is lost.
+func (r *c20Run) opUpdateWindow() {
+	tr, id, ops := r.drawTransition()
+	b := r.log.Mark("op:update:begin")
+	prev := r.db.tree.bottom().frozen
+	r.gate.arm()
+	parkedCh := r.gate.parkedCh()
+	if msg := c20Guard(func() error { return r.db.Update(tr.Root, tr.Parent, uint64(id), tr.Nodes, tr.States) }); msg != "" {
+		r.gate.release("error")
+		r.fail("Update #%d (%x<-%x): %s", id, tr.Root, tr.Parent, msg)
+	}
+	finish := func(kind string) {
+		if err := r.db.tree.bottom().waitFlush(); err != nil {
+			r.fail("background flush failed after %s: %v", kind, err)
+		}
+		e := r.log.Mark("op:" + kind + ":end")
+		r.spans = append(r.spans, c20Span{kind, b, e})
+		r.nOps[kind]++
+	}
+	frozen := r.db.tree.bottom().frozen
+	parked := false
+	if frozen != nil && frozen != prev {
+		// a flush was scheduled: wait until its batch write parks (or it finished)
+		select {
+		case <-parkedCh:
+			parked = true
+		case <-frozen.done:
+		case <-time.After(2 * time.Second):
+		}
+	}
+	if !parked {
+		r.gate.release("no-flush")
+		if frozen != nil && frozen != prev {
+			r.winStats["flush-not-parked"]++
+		}
+		finish("update")
+		r.trace = append(r.trace, fmt.Sprintf("[%d] update #%d %x %v raw=%v (armed, no window) -> disk id %d", r.log.Len(), id, tr.Root[:4], ops, tr.Raw, r.db.tree.bottom().stateID()))
+		return
+	}
+	// the flush of the frozen buffer hangs in its batch write
+	lo := r.log.Len()
+	tr2, id2, ops2 := r.drawTransition()
+	res := make(chan string, 1)
+	go func() {
+		res <- c20Guard(func() error { return r.db.Update(tr2.Root, tr2.Parent, uint64(id2), tr2.Nodes, tr2.States) })
+	}()
+	var (
+		msg      string
+		returned bool
+		start    = time.Now()
+		lastLen  = lo
+		lastMove = start
+	)
+wait:
+	for {
+		select {
+		case msg = <-res:
+			returned = true
+			break wait
+		case <-time.After(time.Millisecond):
+		}
+		now := time.Now()
+		if n := r.log.Len(); n != lastLen {
+			lastLen, lastMove = n, now
+		}
+		// at rest: it logged something and nothing moved for 25 ms, or nothing at all for 300 ms
+		if (lastLen > lo && now.Sub(lastMove) > 25*time.Millisecond) || now.Sub(start) > 300*time.Millisecond {
+			break wait
+		}
+	}
+	hi := r.log.Len()
+	r.gate.release("harness")
+	if !returned {
+		select {
+		case msg = <-res:
+		case <-time.After(60 * time.Second):
+			r.rt.Fatalf("VERIF-INCONCLUSIVE: Update #%d did not return within 60 s after the parked flush was released", id2)
+		}
+	}
+	if msg != "" {
+		r.fail("Update #%d (%x<-%x) while the flush of id %d was in flight: %s", id2, tr2.Root, tr2.Parent, id, msg)
+	}
+	r.windows = append(r.windows, [2]int{lo, hi})
+	if returned {
+		r.winStats["next-update-returned"]++
+	} else {
+		r.winStats["next-update-waited-for-flush"]++
+	}
+	finish("flushwindow")
+	r.trace = append(r.trace, fmt.Sprintf("[%d] update #%d %x %v raw=%v; flush parked at event %d; update #%d %x %v raw=%v (returned before release: %v); released at event %d -> disk id %d",
+		r.log.Len(), id, tr.Root[:4], ops, tr.Raw, lo, id2, tr2.Root[:4], ops2, tr2.Raw, returned, hi, r.db.tree.bottom().stateID()))
 }
 
 func (r *c20Run) opCommit() bool {
@@ -353,28 +611,57 @@ func (r *c20Run) span0(kind string, fn func()) {
 	r.nOps[kind]++
 }
 
-func c20Live(rt *rapid.T, st *vs.S) *c20Run {
-	r := &c20Run{rt: rt, st: st, w: newPdbWorld(), rootID: map[common.Hash]int{}, parent: map[common.Hash]common.Hash{}, nOps: map[string]int{}}
-	r.maxLayers = rapid.SampledFrom([]int{1, 1, 2, 4, 8, 128}).Draw(rt, "maxDiffLayers")
-	r.cfg = Config{
-		StateHistory:        rapid.SampledFrom([]uint64{0, 0, 3, 10}).Draw(rt, "stateHistory"),
-		TrienodeHistory:     rapid.SampledFrom([]int64{-1, -1, 0, 5}).Draw(rt, "trienodeHistory"),
-		FullValueCheckpoint: rapid.SampledFrom([]uint32{0, 8}).Draw(rt, "fullValueCheckpoint"),
-		WriteBufferSize:     rapid.SampledFrom([]int{0, 0, 1024, 8192, 1 << 20}).Draw(rt, "writeBuffer"),
-		NoAsyncFlush:        rapid.IntRange(0, 3).Draw(rt, "asyncFlush") != 0,
-		NoAsyncGeneration:   true,
-		TrieCleanSize:       rapid.SampledFrom([]int{0, 64 * 1024}).Draw(rt, "cleanCache"),
+// c20Live runs one live history. Profile "" is the general one; profile "window"
+// concentrates on owned flush windows: always asynchronous flushing, finite history
+// limits and write buffers that aggregate several layers, mostly updates.
+func c20Live(rt *rapid.T, st *vs.S, profile string) *c20Run {
+	r := &c20Run{rt: rt, st: st, w: newPdbWorld(), rootID: map[common.Hash]int{}, parent: map[common.Hash]common.Hash{}, nOps: map[string]int{}, winStats: map[string]int{}}
+	var (
+		nops    int
+		weights [3]int // cumulative op weights out of 20: update, commit, recover (rest: journal+reopen)
+	)
+	if profile == "window" {
+		r.maxLayers = rapid.SampledFrom([]int{1, 1, 2, 4}).Draw(rt, "maxDiffLayers")
+		r.cfg = Config{
+			StateHistory:        rapid.SampledFrom([]uint64{0, 2, 3, 3, 5, 10}).Draw(rt, "stateHistory"),
+			TrienodeHistory:     rapid.SampledFrom([]int64{-1, -1, -1, 0, 3, 5}).Draw(rt, "trienodeHistory"),
+			FullValueCheckpoint: rapid.SampledFrom([]uint32{0, 8}).Draw(rt, "fullValueCheckpoint"),
+			WriteBufferSize:     rapid.SampledFrom([]int{0, 1024, 8192, 1 << 20, 1 << 20}).Draw(rt, "writeBuffer"),
+			NoAsyncFlush:        false,
+			NoAsyncGeneration:   true,
+			TrieCleanSize:       rapid.SampledFrom([]int{0, 64 * 1024}).Draw(rt, "cleanCache"),
+		}
+		r.armEvery, r.maxWindows = 2, 4
+		maxOps := 30
+		if vs.Thorough() {
+			maxOps, r.maxWindows = 50, 8
+		}
+		nops = rapid.IntRange(8, maxOps).Draw(rt, "ops")
+		weights = [3]int{15, 17, 19}
+	} else {
+		r.maxLayers = rapid.SampledFrom([]int{1, 1, 2, 4, 8, 128}).Draw(rt, "maxDiffLayers")
+		r.cfg = Config{
+			StateHistory:        rapid.SampledFrom([]uint64{0, 0, 3, 10}).Draw(rt, "stateHistory"),
+			TrienodeHistory:     rapid.SampledFrom([]int64{-1, -1, 0, 5}).Draw(rt, "trienodeHistory"),
+			FullValueCheckpoint: rapid.SampledFrom([]uint32{0, 8}).Draw(rt, "fullValueCheckpoint"),
+			WriteBufferSize:     rapid.SampledFrom([]int{0, 0, 1024, 8192, 1 << 20}).Draw(rt, "writeBuffer"),
+			NoAsyncFlush:        rapid.IntRange(0, 3).Draw(rt, "asyncFlush") != 0,
+			NoAsyncGeneration:   true,
+			TrieCleanSize:       rapid.SampledFrom([]int{0, 64 * 1024}).Draw(rt, "cleanCache"),
+		}
+		r.armEvery, r.maxWindows = 3, 2
+		maxOps := 30
+		if vs.Thorough() {
+			maxOps, r.maxWindows = 60, 4
+		}
+		nops = rapid.IntRange(5, maxOps).Draw(rt, "ops")
+		commitW := rapid.SampledFrom([]int{1, 3}).Draw(rt, "commitWeight")
+		if r.maxLayers == 128 {
+			commitW = 4 // otherwise nothing ever reaches the disk layer
+		}
+		weights = [3]int{12 - commitW, 12 + commitW, 18}
 	}
 	r.cfg.StateCleanSize = r.cfg.TrieCleanSize
-	maxOps := 30
-	if vs.Thorough() {
-		maxOps = 60
-	}
-	nops := rapid.IntRange(5, maxOps).Draw(rt, "ops")
-	commitW := rapid.SampledFrom([]int{1, 3}).Draw(rt, "commitWeight")
-	if r.maxLayers == 128 {
-		commitW = 4 // otherwise nothing ever reaches the disk layer
-	}
 
 	dir, err := os.MkdirTemp(c20TempRoot, "c20live")
 	if err != nil {
@@ -383,6 +670,7 @@ func c20Live(rt *rapid.T, st *vs.S) *c20Run {
 	r.dir = dir
 	r.log = crashkv.NewLog()
 	r.kv = crashkv.Wrap(memorydb.New(), r.log)
+	r.gate = newC20Gate(r.kv)
 	r.rec = recfreezer.NewRecorder(r.log, dir)
 	r.head = types.EmptyRootHash
 	r.rootID[r.head] = 0
@@ -390,13 +678,13 @@ func c20Live(rt *rapid.T, st *vs.S) *c20Run {
 	r.open()
 	for i := 0; i < nops; i++ {
 		switch k := rapid.IntRange(0, 19).Draw(rt, "op"); {
-		case k < 12-commitW:
+		case k < weights[0]:
 			r.opUpdate()
-		case k < 12+commitW:
+		case k < weights[1]:
 			if !r.opCommit() {
 				r.opUpdate()
 			}
-		case k < 18:
+		case k < weights[2]:
 			if !r.opRecover() {
 				r.opUpdate()
 			}
@@ -683,9 +971,15 @@ func (r *c20Run) eval(evs []crashkv.Event, im *c20Image) c20Outcome {
 			}
 		}
 	}
+	// kv-loss-below-history-tail needs power loss: the key-value image lacks writes that
+	// had been ISSUED before the crash, among them the flush that raised the persistent
+	// state id to the history tail or above. If even the complete key-value log up to
+	// the crash point (process kill, nothing lost) holds a persistent state id below
+	// the tail of the image, the tail was truncated above the persisted state itself:
+	// that is not the known class and the image is evaluated.
 	for _, sub := range []string{"state", "trienode"} {
 		if tail := recfreezer.ImageTail(im.img, sub); tail > expectID {
-			if vs.Known(c20Test, c20KnownLossBelowTail) {
+			if tail <= rawdb.ReadPersistentStateID(r.log.Materialize(im.crash)) && vs.Known(c20Test, c20KnownLossBelowTail) {
 				out.skipped = c20KnownLossBelowTail
 				return out
 			}
@@ -908,6 +1202,15 @@ type c20PointClass struct {
 	detail string
 }
 
+func (r *c20Run) inWindow(i int) bool {
+	for _, w := range r.windows {
+		if w[0] < i && i <= w[1] {
+			return true
+		}
+	}
+	return false
+}
+
 func (r *c20Run) classify(evs []crashkv.Event, i int) c20PointClass {
 	for _, sp := range r.spans {
 		if !(sp.begin < i && i <= sp.end) || sp.kind == "open" {
@@ -941,8 +1244,10 @@ func (r *c20Run) classify(evs []crashkv.Event, i int) c20PointClass {
 			return false
 		}
 		switch sp.kind {
-		case "update", "commit":
-			if has(before, ":modify") && has(after, "batch") {
+		case "update", "commit", "flushwindow":
+			if r.inWindow(i) {
+				pc.detail = "next-layer-committed-while-flush-in-flight"
+			} else if has(before, ":modify") && has(after, "batch") {
 				pc.detail = "between-history-write-and-state-flush"
 			} else if has(before, "batch") {
 				pc.detail = "after-state-flush"
@@ -982,11 +1287,14 @@ func (r *c20Run) crashPoints(evs []crashkv.Event) []int {
 	return pts
 }
 
-func c20Property(rt *rapid.T, st *vs.S) {
-	r := c20Live(rt, st)
+func c20Property(rt *rapid.T, st *vs.S, profile string) {
+	r := c20Live(rt, st, profile)
 	defer r.closeLive()
 	c := st.Case()
 	evs := r.log.Events()
+	if profile != "" {
+		c.Class("profile:" + profile)
+	}
 
 	c.Classf("cfg:maxDiffLayers=%d", r.maxLayers)
 	c.Classf("cfg:buffer=%d", r.cfg.WriteBufferSize)
@@ -1006,11 +1314,28 @@ func c20Property(rt *rapid.T, st *vs.S) {
 		c.Class("history-has:" + k)
 	}
 
+	c.Classf("flush-windows=%d", len(r.windows))
+	wk := make([]string, 0, len(r.winStats))
+	for k := range r.winStats {
+		wk = append(wk, k)
+	}
+	sort.Strings(wk)
+	for _, k := range wk {
+		c.Class("window:" + k)
+	}
+
 	all := r.crashPoints(evs)
 	chosen := all
 	budget := 25
 	if !vs.Thorough() && len(all) > budget {
 		pick := map[int]bool{all[0]: true, all[len(all)-1]: true}
+		// crash points inside an owned flush window are always evaluated (at most 12)
+		for _, i := range all {
+			if len(pick) < 14 && r.inWindow(i) {
+				pick[i] = true
+			}
+		}
+		budget = min(len(all), max(budget, len(pick)+15))
 		for len(pick) < budget {
 			pick[all[rapid.IntRange(0, len(all)-1).Draw(rt, "crashPoint")]] = true
 		}
@@ -1119,7 +1444,24 @@ func TestVerifC20Crash(t *testing.T) {
 	log.SetDefault(log.NewLogger(c20CritHandler{}))
 	defer log.SetDefault(old)
 	defer func(old int) { maxDiffLayers = old }(maxDiffLayers)
-	vs.Check(t, 1, func(rt *rapid.T) { c20Property(rt, st) })
+	vs.Check(t, 1, func(rt *rapid.T) { c20Property(rt, st, "") })
+}
+
+// TestVerifC20FlushWindow is the same property on the "window" profile: always
+// asynchronous flushing, finite history limits, write buffers that aggregate several
+// layers, mostly updates; every other Update is armed, so that the commit of the next
+// layer is driven while the background flush hangs in its batch write (up to 4
+// windows per history, thorough 8). Crash points inside the windows are always
+// evaluated. Wall time: a window costs ~30 ms when the next Update has to wait for
+// the flush in flight.
+func TestVerifC20FlushWindow(t *testing.T) {
+	st := vs.New("C20", t)
+	c20SetupTemp(t)
+	old := log.Root()
+	log.SetDefault(log.NewLogger(c20CritHandler{}))
+	defer log.SetDefault(old)
+	defer func(old int) { maxDiffLayers = old }(maxDiffLayers)
+	vs.Check(t, 0.4, func(rt *rapid.T) { c20Property(rt, st, "window") })
 }
 
 // ---------------------------------------------------------------- reproductions
